@@ -49,6 +49,9 @@ def nrt_part(ctx, c, n, own, other_note):
     # scenario class: ties (FIFO among equal times on one clock and across clocks, under tempo changes / re-timing)
     for k in range(max(16, n // 8)):
         cases.append(K.gen_ties_prog(rng, k))
+    # scenario class: many routines pending on a clock that is re-timed several times (the scheduler queue fills with replaced entries)
+    for k in range(max(30, n // 5)):
+        cases.append(K.gen_retime_prog(rng))
     outs, bad, explain, errors = K.run_nrt_correspondence(ctx, cases, 'nrt')
     c.evaluations += len(cases)
     for p, o in zip(cases, outs):
